@@ -1,12 +1,9 @@
-(* Extraction of the executable models to OCaml.  Run by setup/check from
-   build/extract (files land in the current directory).  ExtrOcamlBasic only:
-   bool, option, list, prod, unit, sumbool map to OCaml natives; N, Z, positive,
-   nat, byte stay the extracted inductives.  No Extract Constant. *)
+(* Extraction of the C20 model.  Run by extract/build.sh from build/extract/c20.
+   ExtrOcamlBasic only; N, Z, positive, nat stay the extracted inductives. *)
 From Coq Require Import ExtrOcamlBasic.
 From Coq Require Import ZArith NArith List.
 From HV Require Import Model.Breaker.
 Extraction Language OCaml.
-Set Extraction Output Directory ".".
 Separate Extraction
   BinInt.Z.add BinInt.Z.mul BinInt.Z.opp BinInt.Z.div_eucl BinInt.Z.compare BinInt.Z.of_nat BinInt.Z.to_nat
   BinNat.N.add BinNat.N.mul BinNat.N.div_eucl BinInt.Z.of_N BinInt.Z.to_N
